@@ -148,6 +148,135 @@ theorem adjustManaged_frame (ms : List PatchLoc) (buf : List Byte) (δ : BitVec 
       rw [i2 j (fun q hq => hj q (List.mem_cons_of_mem _ hq))]
       exact hfr.2 j (hj p List.mem_cons_self)
 
+/-! ## the whole adjustment pass: every tracked field follows the move -/
+
+/-- what a tracked field currently reads -/
+def readField (p : PatchLoc) (buf : List Byte) : BitVec 64 :=
+  read p.reloc.fmt (ofLeBytes (slice buf (fieldStart p 0) p.reloc.fmt.size))
+
+/-- what it must read after the buffer moved by `δ` -/
+def moved (p : PatchLoc) (r δ : BitVec 64) : BitVec 64 :=
+  match p.reloc.kind with
+  | .relative => r
+  | .relToAbs => r - δ
+  | .absToRel => r + δ
+
+/-- two tracked fields do not overlap -/
+def disjointFields (p q : PatchLoc) : Prop :=
+  ∀ j, inRange (fieldStart p 0) p.reloc.fmt.size j → ¬ inRange (fieldStart q 0) q.reloc.fmt.size j
+
+theorem disjointFields_symm {p q : PatchLoc} (h : disjointFields p q) : disjointFields q p :=
+  fun j hq hp => h j hp hq
+
+theorem slice_congr (a b : List Byte) (st n : Nat) (h : ∀ j, inRange st n j → a[j]? = b[j]?) : slice a st n = slice b st n := by
+  apply List.ext_getElem?
+  intro i
+  simp only [slice, List.getElem?_take, List.getElem?_drop]
+  split
+  · rename_i hi; exact h (st + i) ⟨by omega, by omega⟩
+  · rfl
+
+theorem readField_congr (p : PatchLoc) (a b : List Byte)
+    (h : ∀ j, inRange (fieldStart p 0) p.reloc.fmt.size j → a[j]? = b[j]?) : readField p a = readField p b := by
+  unfold readField
+  rw [slice_congr a b _ _ h]
+
+/-- one adjustment: the field itself reads the moved value, every disjoint field reads what it read before -/
+theorem adjust_one (p : PatchLoc) (buf b : List Byte) (δ : BitVec 64) (hf : isPlain p.reloc.fmt) (h : p.adjust buf δ = .ok b) :
+    readField p b = moved p (readField p buf) δ ∧ ∀ q, disjointFields q p → readField q b = readField q buf := by
+  by_cases hk : p.reloc.kind = .relative
+  · have : b = buf := by
+      unfold PatchLoc.adjust at h
+      simp only [hk] at h
+      cases h; rfl
+    subst this
+    exact ⟨by simp [moved, hk], fun _ _ => rfl⟩
+  · obtain ⟨h1, _, h3⟩ := adjust_tracks_move p buf b δ hf hk h
+    refine ⟨?_, ?_⟩
+    · unfold readField moved
+      rw [h1]
+      cases hkk : p.reloc.kind <;> simp_all
+    · intro q hq
+      apply readField_congr
+      intro j hj
+      exact h3 j (hq j hj)
+
+/-- the fold of `adjustManaged` from an arbitrary accumulator -/
+def adjFold (ms : List PatchLoc) (δ : BitVec 64) (acc : List Byte × Bool × Bool) : List Byte × Bool × Bool :=
+  ms.foldl (fun (acc : List Byte × Bool × Bool) p =>
+    match p.adjust acc.1 δ with
+    | .ok b => (b, acc.2.1, acc.2.2)
+    | .impossible => (acc.1, true, acc.2.2)
+    | .panic => (acc.1, acc.2.1, true)) acc
+
+theorem adjustManaged_eq_adjFold (ms : List PatchLoc) (buf : List Byte) (δ : BitVec 64) :
+    adjustManaged ms buf δ = adjFold ms δ (buf, false, false) := rfl
+
+/-- failure flags only ever get set -/
+theorem adjFold_flags_mono (ms : List PatchLoc) (δ : BitVec 64) (acc : List Byte × Bool × Bool) :
+    (acc.2.1 = true → (adjFold ms δ acc).2.1 = true) ∧ (acc.2.2 = true → (adjFold ms δ acc).2.2 = true) := by
+  induction ms generalizing acc with
+  | nil => exact ⟨id, id⟩
+  | cons p rest ih =>
+    simp only [adjFold, List.foldl_cons]
+    cases p.adjust acc.1 δ with
+    | ok b => exact ih (b, acc.2.1, acc.2.2)
+    | impossible => exact ⟨fun _ => (ih (acc.1, true, acc.2.2)).1 rfl, fun h => (ih (acc.1, true, acc.2.2)).2 h⟩
+    | panic => exact ⟨fun h => (ih (acc.1, acc.2.1, true)).1 h, fun _ => (ih (acc.1, acc.2.1, true)).2 rfl⟩
+
+/-- **every tracked field follows the move.** When the adjustment pass over pairwise disjoint plain fields reports no failure,
+each tracked field afterwards reads exactly what it read before, moved by `δ` in the direction its kind demands — in whatever
+order the map iterates. With `value_moves_with_buffer`: a field that held the right value for the old address holds the right
+value for the new one. -/
+theorem adjust_pass_tracks_all (ms : List PatchLoc) (δ : BitVec 64) (acc : List Byte × Bool × Bool)
+    (hplain : ∀ p ∈ ms, isPlain p.reloc.fmt) (hdis : ms.Pairwise disjointFields)
+    (h0 : acc.2.1 = false ∧ acc.2.2 = false)
+    (hok : (adjFold ms δ acc).2.1 = false ∧ (adjFold ms δ acc).2.2 = false) :
+    (∀ p ∈ ms, readField p (adjFold ms δ acc).1 = moved p (readField p acc.1) δ) ∧
+    (∀ q, (∀ p ∈ ms, disjointFields q p) → readField q (adjFold ms δ acc).1 = readField q acc.1) := by
+  induction ms generalizing acc with
+  | nil => exact ⟨fun p hp => absurd hp (List.not_mem_nil), fun _ _ => rfl⟩
+  | cons p rest ih =>
+    have hp_plain := hplain p List.mem_cons_self
+    obtain ⟨hd1, hd2⟩ := List.pairwise_cons.mp hdis
+    simp only [adjFold, List.foldl_cons] at hok ⊢
+    cases hadj : p.adjust acc.1 δ with
+    | impossible =>
+      simp only [hadj] at hok
+      have := (adjFold_flags_mono rest δ (acc.1, true, acc.2.2)).1 rfl
+      simp only [adjFold] at this
+      rw [this] at hok; cases hok.1
+    | panic =>
+      simp only [hadj] at hok
+      have := (adjFold_flags_mono rest δ (acc.1, acc.2.1, true)).2 rfl
+      simp only [adjFold] at this
+      rw [this] at hok; cases hok.2
+    | ok b =>
+      simp only [hadj] at hok ⊢
+      obtain ⟨hone, hothers⟩ := adjust_one p acc.1 b δ hp_plain hadj
+      have ihr := ih (b, acc.2.1, acc.2.2) (fun q hq => hplain q (List.mem_cons_of_mem _ hq)) hd2 h0 hok
+      simp only [adjFold] at ihr
+      refine ⟨?_, ?_⟩
+      · intro q hq
+        cases hq with
+        | head =>
+          -- p itself: adjusted now, untouched by the rest (disjoint from every later field)
+          rw [ihr.2 p (fun r hr => hd1 r hr), hone]
+        | tail _ hq' =>
+          rw [ihr.1 q hq']
+          have : disjointFields q p := disjointFields_symm (hd1 q hq')
+          rw [hothers q this]
+      · intro q hq
+        rw [ihr.2 q (fun r hr => hq r (List.mem_cons_of_mem _ hr)), hothers q (hq p List.mem_cons_self)]
+
+/-- the statement for `Assembler::commit`'s pass itself -/
+theorem adjustManaged_tracks_all (ms : List PatchLoc) (buf : List Byte) (δ : BitVec 64)
+    (hplain : ∀ p ∈ ms, isPlain p.reloc.fmt) (hdis : ms.Pairwise disjointFields)
+    (hok : (adjustManaged ms buf δ).2.1 = false ∧ (adjustManaged ms buf δ).2.2 = false) :
+    ∀ p ∈ ms, readField p (adjustManaged ms buf δ).1 = moved p (readField p buf) δ := by
+  rw [adjustManaged_eq_adjFold] at hok ⊢
+  exact (adjust_pass_tracks_all ms δ (buf, false, false) hplain hdis ⟨rfl, rfl⟩ hok).1
+
 /-- forgetting the overwritten range: exactly the entries whose field starts in `[s, e)` go, all others stay -/
 theorem removeBetween_spec (m : Managed) (s e : Nat) (x : Nat × PatchLoc) :
     x ∈ m.removeBetween s e ↔ x ∈ m ∧ (s = e ∨ ¬ (s ≤ x.1 ∧ x.1 < e)) := by
